@@ -9,7 +9,7 @@ namespace RealAdapter
 open Validate
 
 def relicKeys (s : String) : List String :=
-  if s == "-" || s == "" then [] else (s.splitOn "/").map fun k => if k.endsWith "*4" then (k.dropEnd 2).toString else k
+  if s == "-" || s == "" then [] else (s.splitOn "/").map fun k => ((k.splitOn "*").headD k)
 
 def cfgOf (op : Rec) : Cfg :=
   let chars := op.list "chars"
